@@ -26,6 +26,51 @@ impl<'a> ParamParser<'a> {
     }
 }
 
+/// Check that `input` holds a well-formed parameter block for `stmt`, so that iterating over the
+/// parameters later cannot fail.
+pub(crate) fn validate(input: &[u8], stmt: &StatementData) -> std::io::Result<()> {
+    use std::io::{Error, ErrorKind::InvalidData};
+
+    let params = stmt.params as usize;
+    if params == 0 {
+        return Ok(());
+    }
+
+    let nullmap_len = (params + 7) / 8;
+    if input.len() <= nullmap_len {
+        return Err(Error::new(InvalidData, "execute is missing parameters"));
+    }
+    let (nullmap, rest) = input.split_at(nullmap_len);
+    let (new_params_bound, mut rest) = (rest[0] != 0x00, &rest[1..]);
+
+    let mut types = Vec::with_capacity(params);
+    if new_params_bound {
+        if rest.len() < 2 * params {
+            return Err(Error::new(InvalidData, "execute is missing parameter types"));
+        }
+        let (typmap, values) = rest.split_at(2 * params);
+        for i in 0..params {
+            let ct = myc::constants::ColumnType::try_from(typmap[2 * i])
+                .map_err(|e| Error::new(InvalidData, format!("bad parameter type: {}", e)))?;
+            types.push((ct, (typmap[2 * i + 1] & 128) != 0));
+        }
+        rest = values;
+    } else if stmt.bound_types.len() == params {
+        types.extend_from_slice(&stmt.bound_types);
+    } else {
+        return Err(Error::new(InvalidData, "execute has no parameter types"));
+    }
+
+    for (col, &(ct, unsigned)) in types.iter().enumerate() {
+        let is_null = (nullmap[col / 8] & 1u8 << (col % 8)) != 0;
+        if !is_null && !stmt.long_data.contains_key(&(col as u16)) {
+            Value::parse_from(&mut rest, ct, unsigned)
+                .map_err(|e| Error::new(InvalidData, format!("bad parameter value: {}", e)))?;
+        }
+    }
+    Ok(())
+}
+
 impl<'a> IntoIterator for ParamParser<'a> {
     type IntoIter = Params<'a>;
     type Item = ParamValue<'a>;
